@@ -231,5 +231,38 @@ def clOutputs (cfg : Cfg) (mtu : Option Nat) (b : FBundle) : List Bytes :=
   let r := sendBundle cfg cfg.now mtu b
   r.direct.toList ++ r.scheduled.flatMap (resend cfg mtu)
 
+/-! ### a CL sender that raises
+
+  `ctr.sender(data)` is the last statement of `send_bundle`: the octets have been handed over when it
+  raises. The fragments are separate idle callbacks (`glib.idle_add(send_bundle, fctr, False)`), so a
+  sender that raises on one hand-over makes that one callback escape (GLib logs it and drops the
+  source) and nothing else: the other fragments are still created and handed over, and the original is
+  never handed to the CL. `fail i` = the sender raises on the i-th hand-over (0-based) of the request. -/
+
+structure FailRes where
+  /-- every byte string handed to the CL, in order (a hand-over that raises counts: the CL got it) -/
+  handed : List Bytes
+  /-- an exception left the original `send_bundle` call -/
+  escaped : Bool
+  /-- indices (in hand-over order) of the idle callbacks that ended by an escaped exception -/
+  idleEscapes : List Nat
+  deriving Repr, DecidableEq
+
+/-- the idle callbacks, one after the other; `i` = hand-overs so far -/
+def runIdle (cfg : Cfg) (mtu : Option Nat) (fail : Nat → Bool) : Nat → List FBundle → List Bytes × List Nat
+  | _, [] => ([], [])
+  | i, f :: fs =>
+    let outs := resend cfg mtu f
+    let r := runIdle cfg mtu fail (i + outs.length) fs
+    (outs ++ r.1, (if outs.length == 1 && fail i then [i] else []) ++ r.2)
+
+/-- one send request with a sender that raises on the hand-overs selected by `fail` -/
+def sendFailing (cfg : Cfg) (fail : Nat → Bool) (mtu : Option Nat) (b : FBundle) : FailRes :=
+  let r := sendBundle cfg cfg.now mtu b
+  let idle := runIdle cfg mtu fail r.direct.toList.length r.scheduled
+  { handed := r.direct.toList ++ idle.1,
+    escaped := r.escaped || (r.direct.isSome && fail 0),
+    idleEscapes := idle.2 }
+
 end Frag
 end DtnVerif
